@@ -433,9 +433,12 @@ class Spectrum:
             Wavelength units, as accepted by :func:`Unit`. Default is ``nm``.
 
         """
-        self.value = self.sample(wave, method=method, fill_value=fill_value,
-                                 waveunit=waveunit)
+        value = self.sample(wave, method=method, fill_value=fill_value,
+                            waveunit=waveunit)
+        # validate the new grid before touching value so that a refused grid
+        # leaves wave and value consistent
         self.wave = wave
+        self.value = value
         self.waveunit = waveunit
 
     def bin(self, wave, interp_method='simps', ends='symmetric', preserve_power=True,
